@@ -6,6 +6,7 @@ import json, os, re, subprocess, sys, time
 ROOT = os.path.dirname(os.path.dirname(os.path.abspath(__file__)))
 sys.path.insert(0, ROOT)
 units_only = "--units-only" in sys.argv
+first_only = "--first" in sys.argv  # only the first (most specific) check of each patch
 names = [a for a in sys.argv[1:] if not a.startswith("--")]
 # which checks depend on which file (the functions under contract and the generated code of layer C)
 BY_FILE = [("crates/lexgen/src/range_map.rs", ["C11"]), ("crates/lexgen/src/regex_to_nfa.rs", ["C11", "C02"]), ("crates/lexgen/src/nfa.rs", ["C02"]),
@@ -53,7 +54,7 @@ for bd in dirs:
         else:
             out_dir = "/var/tmp/benignrun_out_%s_%d" % (bd, os.getpid())
             os.makedirs(out_dir, exist_ok=True)
-            for p in props:
+            for p in (props[:1] if first_only else props):
                 env = dict(os.environ, VERIF_REPO=wt, VERIF_EVIDENCE_DIR=out_dir, VERIF_REPLAY_DIR=out_dir, VERIF_NO_PLAYBACK="1")
                 t0 = time.time()
                 pr = subprocess.run([os.path.join(ROOT, "check"), p], capture_output=True, text=True, env=env)
